@@ -211,6 +211,7 @@ pub fn search_event(ctx: &mut Ctx, rtxn: &RoTxn, db: RawDb, idx: u16, metric: Me
     let mut n_results = 0;
     for (by_item, qv) in &queries {
         let qrep = represent(metric, qv);
+        let prio = split_priorities(ctx, ir, metric, qv);
         let mut groups = Vec::new();
         // group 0 is always the unfiltered one, plus one random other filter
         let fsel = ["none", filter_names[rng.gen_range(1..5)]];
@@ -275,7 +276,7 @@ pub fn search_event(ctx: &mut Ctx, rtxn: &RoTxn, db: RawDb, idx: u16, metric: Me
             }
             groups.push(json!({"filter": fname, "pop": popj, "chains": chains}));
         }
-        qout.push(json!({"kind": if by_item.is_some() {"item"} else {"vec"}, "qid": by_item.map(|i| ctx.rank(i)).unwrap_or(0), "groups": groups}));
+        qout.push(json!({"kind": if by_item.is_some() {"item"} else {"vec"}, "qid": by_item.map(|i| ctx.rank(i)).unwrap_or(0), "groups": groups, "prio": prio}));
     }
 
     // unknown id => None
@@ -329,4 +330,44 @@ fn ctx_disjoint(all: &[u32]) -> RoaringBitmap {
         x = x.wrapping_mul(2654435761).wrapping_add(12345);
     }
     b
+}
+
+/// For every split node: the priority ranks of its left and right child for this query, as the reader
+/// computes them: pq_distance(parent, margin, side) = min(parent, -margin | margin), with the margin taken
+/// from arroy's own `margin_no_header` (zeroed normals give 0, see the reader). Ranks are dense over the
+/// values that occur (larger = popped earlier); NaN margins leave the parent's priority (rank = infinity).
+/// This is INPUT to the specified traversal (Search.tla, Visit), not an oracle.
+fn split_priorities(_ctx: &mut Ctx, ir: &decode::IndexRaw, metric: Metric, qv: &[f32]) -> Value {
+    use arroy::internals::UnalignedVector;
+    use arroy::Distance;
+    let mut margins: Vec<(u32, f32)> = Vec::new();
+    for (nid, n) in &ir.nodes {
+        if let decode::TreeNode::Split { normal, .. } = n {
+            let m: f32 = if decode::normal_is_zero(metric, normal) {
+                0.0
+            } else {
+                crate::with_metric!(metric, D, {
+                    let nv = UnalignedVector::<<D as Distance>::VectorCodec>::from_bytes(normal);
+                    let q = UnalignedVector::<<D as Distance>::VectorCodec>::from_slice(qv);
+                    match nv {
+                        Ok(nv) if nv.len() == q.len() => D::margin_no_header(&nv, &q),
+                        _ => f32::NAN,
+                    }
+                })
+            };
+            margins.push((*nid, m));
+        }
+    }
+    let mut vals: Vec<f32> = margins.iter().flat_map(|(_, m)| [*m, -*m]).filter(|x| !x.is_nan()).map(|x| if x == 0.0 { 0.0 } else { x }).collect();
+    vals.sort_by(|a, b| a.partial_cmp(b).unwrap());
+    vals.dedup();
+    let rank = |x: f32| -> i64 {
+        if x.is_nan() || x == f32::INFINITY {
+            1_000_000
+        } else {
+            let x = if x == 0.0 { 0.0 } else { x };
+            vals.iter().position(|v| *v == x).map(|p| p as i64 + 1).unwrap_or(1_000_000)
+        }
+    };
+    json!(margins.iter().map(|(nid, m)| json!([*nid as i64, rank(-*m), rank(*m)])).collect::<Vec<_>>())
 }
